@@ -151,7 +151,7 @@ def run(chk):
     # ---- fixpoint: generation 2 == generation 3
     fp_jobs = []
     for ip, inp in enumerate(inputs):
-        for oi, opts in enumerate(OPTION_SETS[:6] if quick else OPTION_SETS[:9]):
+        for oi, opts in enumerate(OPTION_SETS[:9]):
             fp_jobs.append((inp, opts, ip * 100 + oi))
 
     def fix(job):
